@@ -124,6 +124,8 @@ EDITS = {
         ("bl02", "crates/lib/mimium-lang/src/runtime/vm.rs", "                    let data: Vec<u64> = heap_obj.data[..inner_size as usize].to_vec();\n                    self.set_stack_range(dst as i64, &data);", "                    let data: Vec<u64> = heap_obj.data[..inner_size as usize].to_vec();\n                    self.set_stack_range(dst as i64, &data);\n                    heap::heap_release(&mut self.heap, heap_idx);", "verus", "closures"),
         ("us10", "crates/lib/mimium-lang/src/runtime/vm.rs", "                    Self::clone_usersum_recursive(&value_vec, &ty, &mut self.heap);", "                    if value_size > 1 { Self::clone_usersum_recursive(&value_vec, &ty, &mut self.heap); }", "verus", "usersum"),
         ("us11", "crates/lib/mimium-lang/src/runtime/vm.rs", "                    let (_, value_data) = self.get_stack_range(value_reg as i64, value_size);\n                    let value_vec = value_data.to_vec();\n                    let tt = &self.prog.type_table;", "                    let (_, value_data) = self.get_stack_range(value_reg as i64 + 1, value_size);\n                    let value_vec = value_data.to_vec();\n                    let tt = &self.prog.type_table;", "verus", "usersum"),
+        ("rc12", "crates/lib/mimium-lang/src/compiler/mirgen.rs", "                    if matches!(body.to_expr(), Expr::Var(_))\n                        && (t.to_type().contains_boxed()", "                    if !matches!(body.to_expr(), Expr::Var(_))\n                        && (t.to_type().contains_boxed()", "verus", "mirgen_rc"),
+        ("rc13", "crates/lib/mimium-lang/src/compiler/mirgen.rs", "                        self.insert_clone_recursively(bodyv.clone(), t);\n                    }\n                    // ローカル変数の場合", "                        self.insert_clone_recursively(bodyv.clone(), t);\n                        self.insert_clone_recursively(bodyv.clone(), t);\n                    }\n                    // ローカル変数の場合", "verus", "mirgen_rc"),
         ("rc09", "crates/lib/mimium-lang/src/compiler/mirgen.rs", "                    if !named && counted {", "                    if named && counted {", "verus", "mirgen_rc"),
         ("rc10", "crates/lib/mimium-lang/src/compiler/mirgen.rs", "                            tuple_offset: offset as u64,\n                        });\n                        self.insert_clone_recursively(elem_v, field.ty);", "                            tuple_offset: 0,\n                        });\n                        self.insert_clone_recursively(elem_v, field.ty);", "verus", "mirgen_rc"),
         ("rc11", "crates/lib/mimium-lang/src/compiler/mirgen.rs", "                        self.insert_clone_recursively(elem_v.clone(), elem_t);\n", "", "verus", "mirgen_rc"),
